@@ -4,4 +4,4 @@ CONSTANTS
   ModelLens = {0, 1, 4}
   Env <- BadEnv
 CONSTRAINT Bounded
-INVARIANTS OutcomeOK ConsumedOK AllocBounded Progress InCallOK
+INVARIANTS OutcomeOK ConsumedOK AllocBounded Progress InCallOK StepKnown
